@@ -314,7 +314,11 @@ CLAIMED = {
              "different prefixes, the empty namespace only the empty prefix, caller-bound namespaces keep the caller's prefix, "
              "xml/xmlns are never declared, declarations sit on the outermost element only. Tie to code: declared prefixes "
              "found in the real output vs the model's prefix map; invalid mappings rejected alike; C13 oracle on every output.",
-        note=TB + "Fewer than 65536 generated prefixes; the iteration order of Python sets is an oracle input (observed order "
+        note=TB + "Prefix collection is proved total (c13_collect_total: it succeeds whenever the number of distinct "
+             "namespaces of the tree plus the size of the mapping is at most 65538; the only failure is the code's "
+             "NotImplementedError after 65536 generated prefixes, shown reachable by c13_collect_exhausted) - hence plain, "
+             "indented and wrapped serialization always end in an output (c02_serialize_total, c02_serialize_roundtrip_total, "
+             "c03_serialize_pretty_total, c03_serialize_wrapped_total'); the iteration order of Python sets is an oracle input (observed order "
              "passed to the model, theorems quantify over all orders).",
         technique="Lean 4 invariant proof over the prefix fold (all orders) + differential correspondence",
         design="3/C13",
